@@ -73,7 +73,7 @@ def classify(case, detail):
         return "datasource-planner-add-selection-out-of-range"
     # (a difference in data may come with errors on the gateway's side only: nulled non-null positions)
     m = DIAG.search(detail) if clause == "data_equal" or (clause == "errors_iff" and "gateway=true reference=false" in detail) else None
-    if m and "(covfield t)" in case:
+    if m and "(abstract t)" in case:
         position, ncombos, combos, fields, aliases = m.groups()
         # abstract_selection_field_alias.go aliased a composite response key on the way to the diverging position in
         # member fragments (`... on T { __internal_merge_T_cv: cv {..} }`): the resolve tree gives the aliased
@@ -81,11 +81,13 @@ def classify(case, detail):
         # from the wrong object
         if aliases.strip():
             return "merge-alias-on-composite-field-lost-in-field-merge"
-        # postprocess/merge_fields.go: the diverging response key is selected under several (outer, inner) type
-        # condition combinations and every field the merged plan keeps for it carries an inherited parent type
-        # condition -- the disjunction of the selections is not what the merged conditions express
+        # postprocess/merge_fields.go: the diverging response key has several type-condition alternatives -- the
+        # operation selects it under several (outer, inner) combinations and / or the merged plan keeps several
+        # fields for it (the per-type rewrite adds conditions the operation does not show) -- and the plan holds a
+        # field for it that carries an inherited parent type condition; the key is missing / null (or present as
+        # null where the operation does not select it): the merged conditions are not the disjunction of the selections
         plan_fields = [f for f in fields.split(" | ") if f.strip()]
-        if int(ncombos) >= 2 and plan_fields and all("parentOn=[" in f for f in plan_fields) \
+        if int(ncombos) + len(plan_fields) >= 3 and any("parentOn=[" in f for f in plan_fields) \
                 and re.search(r": (members \{|null vs )", detail):
             return "merge-scalars-conjoins-type-conditions"
     return None
@@ -124,7 +126,7 @@ def distribution(cases):
             if "covariant" in m.group(1).split(","):
                 d["configs_with_knob_covariant"] += 1
             n = len([k for k in m.group(1).split(",") if k != "covariant"])
-            tier = "minimal" if n <= 6 else ("medium" if n <= 20 else "full")
+            tier = "minimal" if n <= 6 else ("medium" if n <= 26 else "full")
             d["knob_tiers"][tier] = d["knob_tiers"].get(tier, 0) + 1
     for k in ("subgraphs", "fetches_per_plan", "entity_fetches"):
         d[k] = dict(sorted(d[k].items(), key=lambda kv: int(kv[0])))
@@ -195,7 +197,7 @@ def run(chk):
             "|rq[0-9_]+: null vs|gateway errors=true reference errors=false"
             "|Fragment cannot be spread here as objects of type|upstream merge aliases .__internal_merge"
             "|frames: pkg/ast...Document..AddSelection"
-            "|selected under ([2-9]|[0-9][0-9]+) condition combination.*; plan fields .[^|]*parentOn=")
+            "|selected under [0-9]+ condition combination.*; plan fields .*parentOn=")
     state, samples, allcases = {}, [], []
     corpus = os.path.join(vlib.ROOT, "corpus", "C01")
     if glob.glob(os.path.join(corpus, "*.json")):
